@@ -20,4 +20,6 @@ def run(check):
     check.run_rule('C14.R3', lambda c: rule_replace_and_slots(c, 'C14.R3'))
     from ..rules_classes import rule_upgrade_idempotent
     check.run_rule('C14.R3b', lambda c: rule_upgrade_idempotent(c, 'C14.R3'))
+    from ..rules_classes import rule_sibling_eq
+    check.run_rule('C14.R1s', lambda c: rule_sibling_eq(c, 'C14.R1'))
     check.run_rule('C14.R4', lambda c: rule_nothing_else_overridden(c, 'C14.R4'))
